@@ -9,11 +9,22 @@
 //	     seeding and drawing (hook point): comma separated d<n> (rand.Intn(n)) / s<seed> (rand.Seed), "-" = nothing,
 //	     prefix H = additionally three goroutines hammer the global generator during the whole call.
 //	     Output: ok <index> | err noblock | err notenough.
+//	sort v1|v2 <reps> <votes:nodekey>...
+//	     the REAL getSortedProducers / getSortedProducersDposV2 on a state holding these producers, called
+//	     reps times (fresh map, different insertion order each time).  Output: the node keys in order, or
+//	     "unstable" when two repetitions disagree.
+//	randv2 <seed> <normal> <crc> <unclaimed> <draws> <env> <blk> <rights:nodekey:ownerkey>...
+//	     the REAL getRandomDposV2Producers with the environment acting on the process-global generator at the
+//	     hook point between seeding and the draws; draws = what a fresh private source seeded from the block
+//	     draws (oracle values).  Output: the owner keys in the selected order.
 package main
 
 import (
+	"bytes"
+	"encoding/hex"
 	"fmt"
 	"math/rand"
+	"sort"
 	"strconv"
 	"strings"
 	"sync"
@@ -21,6 +32,7 @@ import (
 
 	"elaverif/harness/hx"
 
+	"github.com/elastos/Elastos.ELA/common"
 	"github.com/elastos/Elastos.ELA/core/types"
 	common2 "github.com/elastos/Elastos.ELA/core/types/common"
 	"github.com/elastos/Elastos.ELA/dpos/state"
@@ -101,7 +113,142 @@ func runEnv(env string) {
 	}
 }
 
+type prod struct {
+	v     int64
+	node  []byte
+	owner []byte
+}
+
+func parseProds(ts []string) []prod {
+	var res []prod
+	for _, t := range ts {
+		p := strings.Split(t, ":")
+		if len(p) < 2 {
+			panic("harness: bad producer " + t)
+		}
+		v, err := strconv.ParseInt(p[0], 10, 64)
+		if err != nil {
+			panic("harness: bad votes " + p[0])
+		}
+		pr := prod{v: v, node: hx.UnHex(p[1])}
+		pr.owner = append([]byte{0xEE}, pr.node...)
+		if len(p) == 3 {
+			pr.owner = hx.UnHex(p[2])
+		}
+		res = append(res, pr)
+	}
+	return res
+}
+
+func toVerif(ps []prod, shuffle int) []state.VerifProducer {
+	var res []state.VerifProducer
+	for _, p := range ps {
+		res = append(res, state.VerifProducer{Owner: p.owner, Node: p.node, Votes: common.Fixed64(p.v), Rights: common.Fixed64(p.v)})
+	}
+	// a different insertion order per repetition (Go's map order is random anyway)
+	for i := range res {
+		j := (i*7 + shuffle*13) % len(res)
+		res[i], res[j] = res[j], res[i]
+	}
+	return res
+}
+
+// the order the property demands: more votes first, ties by smaller node public key
+func wantOrder(ps []prod) []prod {
+	s := append([]prod(nil), ps...)
+	sort.SliceStable(s, func(i, j int) bool {
+		if s[i].v != s[j].v {
+			return s[i].v > s[j].v
+		}
+		return bytes.Compare(s[i].node, s[j].node) < 0
+	})
+	return s
+}
+
+func seedAuxOf(b *types.Block) int64 {
+	h := b.HashWithAux()
+	x := make([]byte, 8)
+	copy(x, h[24:])
+	s, _, _ := state.Readi64(x)
+	return s
+}
+
+// what getRandomDposV2Producers must return: count keys drawn by an undisturbed private generator
+// seeded from the block, then the rest in order
+func wantV2(seed int64, ps []prod, unclaimed, count int) (res []string, draws []string) {
+	var keys []string
+	for _, p := range wantOrder(ps)[unclaimed:] {
+		keys = append(keys, hex.EncodeToString(p.owner))
+	}
+	if len(keys) > count {
+		r := rand.New(rand.NewSource(seed))
+		for i := 0; i < count; i++ {
+			d := r.Intn(len(keys))
+			draws = append(draws, strconv.Itoa(d))
+			res = append(res, keys[d])
+			keys = append(keys[:d:d], keys[d+1:]...)
+		}
+	}
+	return append(res, keys...), draws
+}
+
+func joinOr(xs []string, sep, empty string) string {
+	if len(xs) == 0 {
+		return empty
+	}
+	return strings.Join(xs, sep)
+}
+
+func execSort(t []string) string {
+	ps := parseProds(t[3:])
+	reps := atoi(t[2])
+	var first string
+	for k := 0; k < reps; k++ {
+		var keys []string
+		for _, n := range state.VerifSortedProducers(toVerif(ps, k), t[1] == "v2") {
+			keys = append(keys, hx.Hex(n))
+		}
+		cur := strings.Join(keys, " ")
+		if k == 0 {
+			first = cur
+		} else if cur != first {
+			lastUnstable = first + " | " + cur
+			return "unstable"
+		}
+	}
+	return first
+}
+
+var lastUnstable string
+
+func execRandV2(t []string) string {
+	normal, crc, unclaimed := atoi(t[2]), atoi(t[3]), atoi(t[4])
+	b := block(t[7])
+	ps := parseProds(t[8:])
+	seed := seedAuxOf(b)
+	if strconv.FormatInt(seed, 10) != t[1] {
+		return "oracle-mismatch seed " + strconv.FormatInt(seed, 10)
+	}
+	if _, draws := wantV2(seed, ps, unclaimed, normal+crc); joinOr(draws, ",", "-") != t[5] {
+		return "oracle-mismatch draws " + joinOr(draws, ",", "-")
+	}
+	env := t[6]
+	state.VerifInterleave = func() { runEnv(env) }
+	defer func() { state.VerifInterleave = nil }()
+	res, err := state.VerifRandomDposV2Producers(b, normal, crc, unclaimed, toVerif(ps, 0))
+	if err != nil {
+		return "err " + strings.ReplaceAll(err.Error(), " ", "_")
+	}
+	return joinOr(res, ",", "-")
+}
+
 func exec(t []string) string {
+	switch t[0] {
+	case "sort":
+		return execSort(t)
+	case "randv2":
+		return execRandV2(t)
+	}
 	if t[0] != "cand" {
 		panic("harness: unknown op " + t[0])
 	}
@@ -158,6 +305,32 @@ func exec(t []string) string {
 // oracle: the chosen candidate must be a function of chain data only — the value an
 // undisturbed private generator seeded from the block hash draws first.
 func oracle(t []string, out string) *hx.Violation {
+	switch t[0] {
+	case "sort":
+		if out == "unstable" {
+			return &hx.Violation{Kind: "producer-order-depends-on-map-order",
+				Detail: "two calls on the same producer set returned different orders: " + lastUnstable}
+		}
+		var keys []string
+		for _, p := range wantOrder(parseProds(t[3:])) {
+			keys = append(keys, hx.Hex(p.node))
+		}
+		if out != strings.Join(keys, " ") {
+			return &hx.Violation{Kind: "producer-order-not-votes-then-key",
+				Detail: "expected " + strings.Join(keys, " ")}
+		}
+		return nil
+	case "randv2":
+		if strings.HasPrefix(out, "err ") || strings.HasPrefix(out, "oracle-mismatch") {
+			return nil
+		}
+		want, _ := wantV2(seedAuxOf(block(t[7])), parseProds(t[8:]), atoi(t[4]), atoi(t[2])+atoi(t[3]))
+		if out != joinOr(want, ",", "-") {
+			return &hx.Violation{Kind: "dposv2-selection-depends-on-schedule",
+				Detail: fmt.Sprintf("with environment %s on the process-global generator between seeding and drawing the selection is %s; undisturbed it is %s", t[6], out, joinOr(want, ",", "-"))}
+		}
+		return nil
+	}
 	if !strings.HasPrefix(out, "ok ") || t[8] == "none" {
 		return nil
 	}
@@ -175,6 +348,7 @@ func oracle(t []string, out string) *hx.Violation {
 }
 
 func gen(g *hx.Gen) {
+	genMore(g)
 	envs := []string{"-", "d7", "d1", "d1000000", "d0", "s1", "s42,d3", "d3,d5,d9", "d2,s7,d2", "H-", "Hd5", "Hs9"}
 	for i := 0; i < g.N(3000, 60000); i++ {
 		normal := g.R.Pick(1, 2, 12, 24, 36)
@@ -214,7 +388,57 @@ func gen(g *hx.Gen) {
 	}
 }
 
+func genProds(g *hx.Gen, n int, withOwner bool) []string {
+	var res []string
+	used := map[string]bool{}
+	for len(res) < n {
+		k := append([]byte{0x02 + g.R.Byte()&1}, g.R.Bytes(3)...)
+		if g.R.Chance(30) {
+			k[1] = 0x11 // shared prefix: the byte order of the keys must decide
+		}
+		if used[string(k)] {
+			continue
+		}
+		used[string(k)] = true
+		v := 1 + g.R.Intn(4) // few distinct values: many ties
+		if g.R.Chance(20) {
+			v = 1 + g.R.Intn(1000000)
+		}
+		if withOwner {
+			res = append(res, fmt.Sprintf("%d:%s:%s", v, hx.Hex(k), hx.Hex(append([]byte{0x03}, g.R.Bytes(3)...))))
+		} else {
+			res = append(res, fmt.Sprintf("%d:%s", v, hx.Hex(k)))
+		}
+	}
+	return res
+}
+
+func genMore(g *hx.Gen) {
+	envs := []string{"-", "d7", "d1", "d1000000", "s1", "s42,d3", "d3,d5,d9", "d2,s7,d2"}
+	for i := 0; i < g.N(600, 10000); i++ {
+		kind := "v1"
+		if g.R.Bool() {
+			kind = "v2"
+		}
+		g.Emit("sort %s %d %s", kind, 6, strings.Join(genProds(g, 2+g.R.Intn(10), false), " "))
+	}
+	for i := 0; i < g.N(1500, 30000); i++ {
+		ps := genProds(g, 3+g.R.Intn(10), true)
+		normal, crc, unclaimed := 1+g.R.Intn(4), g.R.Intn(3), g.R.Intn(2)
+		blk := fmt.Sprintf("%d:%d:%d:%d:%d", g.R.Intn(3), g.R.U64()&0xffffffff, 0x207fffff, g.R.U64()&0xffffffff, g.R.Intn(3000000))
+		seed := seedAuxOf(block(blk))
+		_, draws := wantV2(seed, parseProds(ps), unclaimed, normal+crc)
+		g.Emit("randv2 %d %d %d %d %s %s %s %s", seed, normal, crc, unclaimed, joinOr(draws, ",", "-"), envs[g.R.Intn(len(envs))], blk, strings.Join(ps, " "))
+	}
+}
+
 func nontrivial(t []string, out string) bool {
+	switch t[0] {
+	case "sort":
+		return true
+	case "randv2":
+		return t[5] != "-" && t[6] != "-" // keys were drawn while the environment acted
+	}
 	// a candidate was drawn while the environment acted on the global generator
 	return strings.HasPrefix(out, "ok ") && t[7] != "-"
 }
